@@ -220,6 +220,11 @@ def split_pair_blocks(m) -> bool:
 KF_OPEN: set = set()
 
 
+def _d57(src):
+    from harness import corpus as _c
+    return _c.d57_trigger(src)
+
+
 def d44_shape(tree) -> bool:
     """some item of a tight list holds a loose list that is not its first block"""
     def walk(n):
@@ -230,6 +235,26 @@ def d44_shape(tree) -> bool:
             for li in n[4]:
                 kids = li[1] if li and li[0] == "li" else []
                 if tight and any(k[0] == "list" and not k[3] for k in kids[1:]):
+                    return True
+                if any(walk(k) for k in kids):
+                    return True
+            return False
+        for part in n[1:]:
+            if isinstance(part, list) and any(walk(k) for k in part):
+                return True
+        return False
+    return walk(tree)
+
+
+def d44_first_shape(tree) -> bool:
+    """some list item starts with a loose list"""
+    def walk(n):
+        if not isinstance(n, tuple):
+            return False
+        if n[0] == "list":
+            for li in n[4]:
+                kids = li[1] if li and li[0] == "li" else []
+                if kids and kids[0][0] == "list" and not kids[0][3]:
                     return True
                 if any(walk(k) for k in kids):
                     return True
@@ -258,6 +283,8 @@ def finding_for(m) -> str | None:
     # that is adjacent in the source.
     if split_pair_blocks(m):
         return "D40"
+    if "D57" in KF_OPEN and _d57(m["src"]):
+        return "D57"
     # D56: the first pass joined a bare footnote label line with its indented continuation into a definition
     from harness import corpus as _corpus
     if _corpus.d56_trigger(m["src"]) and not _corpus.d56_trigger(m["pass1"]):
@@ -267,6 +294,14 @@ def finding_for(m) -> str | None:
                 return "D56"
         except BaseException:  # noqa: BLE001
             pass
+    # D44, second face: a loose list that OPENS an item writes its separator before the marker of that item (a blank line in front of the
+    # enclosing item; inside a quote '>' first and '> ' + '>' after the next pass).  Attributed only if the source has that shape and the two
+    # passes differ by nothing but blank / prefix-only lines
+    if "D44" in KF_OPEN and d44_first_shape(project.parse_marko(m["src"])):
+        def solid(text):
+            return [l.rstrip() for l in text.split("\n") if l.strip(" >") != ""]
+        if solid(m["pass1"]) == solid(m["pass2"]):
+            return "D44"
     try:
         changed = project.flat(project.parse_marko(m["src"])) != project.flat(project.parse_marko(m["pass1"]))
     except BaseException:  # noqa: BLE001
